@@ -186,7 +186,7 @@ Proof.
   - (* SdSetDimScale *)
     destruct (negb (writable (sd_mode s))); [reflexivity|].
     destruct (var_slot (sd_cur s) i d) as [sl|]; [|reflexivity]. destruct (slot_dim (sd_cur s) sl) as [k|] eqn:E; [|reflexivity].
-    rewrite (ensure_coord_congr hk1 hk2 _ Hc sl k nt (slot_dim_live _ _ _ E)). reflexivity.
+    rewrite (ensure_coord_congr hk1 hk2 _ Hc sl k nt (slot_dim_live _ _ _ E)), (Hc k (slot_dim_live _ _ _ E)). reflexivity.
   - (* SdGetDimScale *)
     destruct (var_slot (sd_cur s) i d) as [sl|]; [|reflexivity]. destruct (slot_dim (sd_cur s) sl) as [k|] eqn:E; [|reflexivity].
     rewrite (ensure_coord_congr hk1 hk2 _ Hc sl k 0 (slot_dim_live _ _ _ E)). reflexivity.
@@ -591,7 +591,8 @@ Record persist_ok (c : sdcore) : Prop := mkPOk {
   p_gattrs : attr_names_ok (s_gattrs c);                                  (* finding 1: names the Vdata name can hold *)
   p_vattrs : forall v, In v (s_vars c) -> attr_names_ok (v_attrs v);
   p_fakes : fakes_stable c;                                               (* finding 3: no unnamed dimension is renumbered *)
-  p_vfakes : vfakes_ok c                                                  (* ... and no variable bears a number beyond the table *)
+  p_vfakes : vfakes_ok c;                                                 (* ... and no variable bears a number beyond the table *)
+  p_nts : forall v, In v (s_vars c) -> nt_plain (v_nt v) = true           (* HDF number types or their little-endian variants *)
 }.
 
 Definition obj_of (c : sdcore) (k : nat) : dimo := nth k (s_dims c) dim0.
@@ -784,16 +785,24 @@ Qed.
 Lemma fold_skip : forall (T : Type) (g : vmember -> T -> T) l x, (forall m, In m l -> forall a, g m a = a) -> fold_right g x l = x.
 Proof. induction l as [|m l IH]; simpl; intros x H; [reflexivity|]. rewrite H by (left; reflexivity). apply IH. intros; apply H; right; assumption. Qed.
 
-Lemma rv_folds : forall v,
-  fold_right (fun m acc => match m with VM_NT t => t | _ => acc end) 0 (ms v) = v_nt v /\
+Lemma nt_class_roundtrip : forall nt, nt_plain nt = true -> nt_decode (Z.land nt 255) (nt_class nt) = nt.
+Proof.
+  intros nt H. unfold nt_plain, hdf_unmap_type_switch in H. simpl in H.
+  repeat match goal with
+         | H : (_ || _) = true |- _ => apply orb_true_iff in H; destruct H as [H | H]
+         end; try discriminate; apply Z.eqb_eq in H; subst nt; vm_compute; reflexivity.
+Qed.
+
+Lemma rv_folds : forall v, nt_plain (v_nt v) = true ->
+  fold_right (fun m acc => match m with VM_NT b cl => nt_decode b cl | _ => acc end) 0 (ms v) = v_nt v /\
   fold_right (fun m acc => match m with VM_Data d => Some d | _ => acc end) None (ms v) = v_scale v /\
   fold_right (fun m acc => match m with VM_NDG r => r | _ => acc end) 0 (ms v) = v_ref v.
 Proof.
-  intro v. unfold ms, store_var. simpl vgr_members. rewrite !fold_right_app.
+  intros v Hnt. unfold ms, store_var. simpl vgr_members. rewrite !fold_right_app.
   repeat split.
   - rewrite fold_skip; [|intros m Hm a; apply in_map_iff in Hm; destruct Hm as [x [E _]]; subst m; reflexivity].
     rewrite fold_skip; [|intros m Hm a; apply in_map_iff in Hm; destruct Hm as [x [E _]]; subst m; reflexivity].
-    simpl. destruct (v_scale v); reflexivity.
+    simpl. destruct (v_scale v); simpl; apply nt_class_roundtrip; assumption.
   - rewrite fold_skip; [|intros m Hm a; apply in_map_iff in Hm; destruct Hm as [x [E _]]; subst m; reflexivity].
     rewrite fold_skip; [|intros m Hm a; apply in_map_iff in Hm; destruct Hm as [x [E _]]; subst m; reflexivity].
     simpl. destruct (v_scale v); reflexivity.
@@ -856,12 +865,12 @@ Proof.
       intros k1 H1. rewrite Ec in H1. discriminate.
 Qed.
 
-Lemma read_store_var : forall v, In v (s_vars c) -> attr_names_ok (v_attrs v) ->
+Lemma read_store_var : forall v, In v (s_vars c) -> attr_names_ok (v_attrs v) -> nt_plain (v_nt v) = true ->
   read_var ds (store_var c v) =
   mkVar (v_name v) (v_kind v) (v_nt v) (map res_slot (v_dims v)) (v_attrs v) (v_scale v)
         (match v_cobj v with Some k => index_of k L | None => None end) (v_ref v).
 Proof.
-  intros v Hv Ha. unfold read_var. fold (ms v). destruct (rv_folds v) as [F1 [F2 F3]].
+  intros v Hv Ha Hnt. unfold read_var. fold (ms v). destruct (rv_folds v Hnt) as [F1 [F2 F3]].
   rewrite (rv_kind v), F1, F2, F3, (rv_attrs v Ha), (rv_dims v Hv).
   change (vgr_name (store_var c v)) with (v_name v). rewrite (rv_cobj v Hv). reflexivity.
 Qed.
@@ -883,7 +892,7 @@ Proof.
     rewrite filter_map_map in E. exact E.
   - (* variables *)
     apply filter_map_some. intros v Hv. change (vgr_class (store_var c v)) with _HDF_VARIABLE. rewrite beq_refl. f_equal.
-    apply (read_store_var c Hi (p_fakes c Hp) v Hv (p_vattrs c Hp v Hv)).
+    apply (read_store_var c Hi (p_fakes c Hp) v Hv (p_vattrs c Hp v Hv) (p_nts c Hp v Hv)).
   - rewrite map_length. reflexivity.
 Qed.
 
@@ -911,13 +920,18 @@ Proof.
   rewrite E. reflexivity.
 Qed.
 
-Lemma h_step_sd : forall s o, sd_cur (fst (h_step s o)) = sd_cur s /\ sd_saved (fst (h_step s o)) = sd_saved s.
+Lemma h_step_plain_sd : forall s o, sd_cur (fst (h_step_plain s o)) = sd_cur s /\ sd_saved (fst (h_step_plain s o)) = sd_saved s.
 Proof.
-  intros s o. unfold h_step. destruct o; try (split; reflexivity);
+  intros s o. unfold h_step_plain. destruct o; try (split; reflexivity);
   repeat match goal with
          | |- context [if ?b then _ else _] => destruct b
          | |- context [match ?x with _ => _ end] => destruct x
          end; split; reflexivity.
+Qed.
+Lemma h_step_sd : forall s o, sd_cur (fst (h_step s o)) = sd_cur s /\ sd_saved (fst (h_step s o)) = sd_saved s.
+Proof.
+  intros s o. unfold h_step. destruct o; try apply h_step_plain_sd.
+  destruct o; try (split; reflexivity); apply h_step_plain_sd.
 Qed.
 
 Lemma with_cur_sinv : forall s c d, sinv s -> inv c -> sinv (with_cur s c d).
@@ -983,8 +997,9 @@ Proof.
     destruct (var_slot (sd_cur s) i d) as [sl|]; [|inversion H; subst; assumption].
     destruct (slot_dim (sd_cur s) sl) as [k|] eqn:Ek; [|inversion H; subst; assumption].
     destruct (nt_size nt); destruct (nc_type nt); destruct (nth_error (s_dims (sd_cur s)) k); try (inversion H; subst; assumption).
-    destruct (negb (count =? d_size d0)); [inversion H; subst; assumption|].
-    destruct (negb ((zlen data =? count * z) && (Z.land nt DFNT_NATIVE =? 0))); [inversion H; subst; assumption|].
+    destruct (negb ((d_size d0 =? 0) || (count =? d_size d0))); [inversion H; subst; assumption|].
+    destruct (negb ((zlen data =? count * z) && nt_plain nt && (1 <=? count))); [inversion H; subst; assumption|].
+    match type of H with (if ?b then _ else _) = _ => destruct b; [inversion H; subst; assumption|] end.
     destruct (inv_ensure_coord (sd_cur s) sl k nt Hc Ek) as [A _].
     destruct (ensure_coord spec_hooks (sd_cur s) sl k nt) as [c1 j]. simpl in A.
     destruct (nth_error (s_vars c1) j) eqn:Ej; inversion H; subst; try assumption.
@@ -1085,7 +1100,8 @@ Definition fakes_stableb (c : sdcore) : bool :=
 Definition vfakes_okb (c : sdcore) : bool :=
   forallb (fun v => match v_name v with DFake n => Nat.ltb n (length (live_list c)) | DUser _ => true end) (s_vars c).
 Definition persist_okb (c : sdcore) : bool :=
-  attr_names_okb (s_gattrs c) && forallb (fun v => attr_names_okb (v_attrs v)) (s_vars c) && fakes_stableb c && vfakes_okb c.
+  attr_names_okb (s_gattrs c) && forallb (fun v => attr_names_okb (v_attrs v)) (s_vars c) && fakes_stableb c && vfakes_okb c
+  && forallb (fun v => nt_plain (v_nt v)) (s_vars c).
 Definition no_orphan_namedb (c : sdcore) (n : dname) : bool :=
   forallb (fun v => match v_kind v with
                     | KCoord => (match v_cobj v with Some k0 => existsb (Nat.eqb k0) (s_slots c) | None => false end)
@@ -1114,7 +1130,8 @@ Proof.
 Qed.
 Lemma persist_okb_sound : forall c, persist_okb c = true -> persist_ok c.
 Proof.
-  intros c H. unfold persist_okb in H. apply andb_true_iff in H. destruct H as [H H4]. apply andb_true_iff in H. destruct H as [H H3].
+  intros c H. unfold persist_okb in H. apply andb_true_iff in H. destruct H as [H H5].
+  apply andb_true_iff in H. destruct H as [H H4]. apply andb_true_iff in H. destruct H as [H H3].
   apply andb_true_iff in H. destruct H as [H1 H2]. constructor.
   - apply attr_names_okb_sound. assumption.
   - intros v Hv. apply attr_names_okb_sound. rewrite forallb_forall in H2. apply H2. assumption.
@@ -1122,6 +1139,7 @@ Proof.
     specialize (H3 (j, k) (nth_in_combine_seq _ 0 j k A)). simpl in H3. rewrite B, C in H3. apply Nat.eqb_eq in H3. assumption.
   - intros v n Hv Hn. unfold vfakes_okb in H4. rewrite forallb_forall in H4. specialize (H4 v Hv). rewrite Hn in H4.
     apply Nat.ltb_lt. assumption.
+  - intros v Hv. rewrite forallb_forall in H5. apply H5. assumption.
 Qed.
 Lemma no_orphan_namedb_sound : forall c n, no_orphan_namedb c n = true -> no_orphan_named c n.
 Proof.
